@@ -316,7 +316,7 @@ def gen_history(rng, depth, ncalls=None, maxdepth=None, fault=None):
         elif rng.random() < 0.25:
             fl = (0, "t")
         else:
-            fl = (rng.randint(1, 8), rng.choice(CATCHABLE + ["i", "i", "i"]))
+            fl = (rng.choice([1, 1, 2, 2, 3, 3, 4, 5, 6, 8]), rng.choice(CATCHABLE + ["i", "i", "i"]))
         t, c = g.call(depth, fl)
         mtoks.append(t)
         calls.append(c)
@@ -466,6 +466,11 @@ def regression_seeds():
         s.append(H(-1, [["RP", str(k), "i" if kind == "i" else "t"] + gtok2], [{"api": "RP", "src": gsrc2, "k": k, "kind": kind}], gdecl))
     for k, kind, mx in ((0, "t", -1), (3, "i", -1), (3, "t", -1), (4, "o", -1), (0, "t", 1), (0, "t", 2), (0, "t", 3)):
         s.append(H(mx, [["RP", str(k), "i" if kind == "i" else "t"] + atok], [{"api": "RP", "src": asrc, "k": k, "kind": kind}]))
+    # still unrepaired (known: defect:unwind-abort-in-recover): the loop body throws from a native (Go panic → recover →
+    # handleThrow at the JS try frame), closing the iterator overflows the call stack inside its return()
+    s.append(H(1, [["CA", "0", "1", "t", "Y", "1", "0", "S", "Fn", "1", "K", "FO", "G", "0", "P", "2", "P", "1", "K", "K"]],
+               [{"api": "CA", "fn": "FU", "n": 0, "k": 1, "kind": "t"}],
+               "function FU(){ try { var itU = MKIT(function(){ P(2); return {}; }); for (var w of itU) { P(1); } } catch(e) { } }"))
     # 379f30d: a throw inside `finally` must not be caught by the statement's own catch
     s.append(H(-1, [["RP", "0", "t", "Y", "1", "0", "Y", "1", "1", "P", "1", "P", "2", "S", "P", "3", "T", "P", "4", "K"]],
                [{"api": "RP", "src": "try { try { P(1); } catch(e1) { P(2); } finally { P(3); throw new Error('t'); } } catch(e2) { P(4); }", "k": 0, "kind": "t"}]))
@@ -548,6 +553,42 @@ class Runner:
             if rc == 0 and len(out) == len(hs):
                 return out
         return None
+
+
+KNOWN_UAR = "defect:unwind-abort-in-recover"
+
+
+def unwind_abort_in_recover(h, impl_main, model_main):
+    """Fingerprint of the one defect still unrepaired in /repo (known_findings.d/C03.json, fixes/C03-unwind-abort-in-recover.diff):
+    handleThrow, entered from a recover(), closes the iterators of the JS try frame it stopped at; an uncatchable raised by
+    an iterator's return() leaves handleThrow with that frame still on the try stack, the boundary's deferred popTryFrame
+    pops it instead of the marker, and a try frame (plus sp / call frames) stays at idle.  Recognised only if: outcomes and
+    probe traces of all calls are as the model says, the state vectors differ at most in sp / tryStack / callStack /
+    prgNil / sb, and the source has a try statement and an iterator with a JS return()."""
+    src = h["prelude"] + " ".join(c.get("src", "") for c in h["calls"]) + json.dumps(h.get("natives", {}))
+    if "try" not in src or not ("MKIT(" in src or "return()" in src or "return(){" in src):
+        return False
+    ic = [c.split("|") for c in impl_main.split(" ; ")]
+    mc = [c.split("|") for c in model_main.split(" ; ")] if model_main else [[None, None, IDLE]] * len(ic)
+    if len(ic) != len(mc):
+        return False
+    differs = False
+    for a, b in zip(ic, mc):
+        if len(a) != 3 or len(b) != 3:
+            return False
+        if b[0] is not None and (a[0] != b[0] or a[1] != b[1]):
+            return False
+        if a[2] != b[2]:
+            fa, fb = a[2].split(","), b[2].split(",")
+            if len(fa) != len(fb):
+                return False
+            diff = set(FIELDS[j] for j in range(len(fa)) if fa[j] != fb[j])
+            if b[0] is None and "jobQueue" in diff and a[0] in ("ok", "ex"):
+                diff.discard("jobQueue")
+            if not diff <= {"sp", "sb", "tryStack", "callStack", "prgNil"} or "tryStack" not in diff:
+                return False
+            differs = True
+    return differs
 
 
 def shards(items, n):
@@ -644,6 +685,11 @@ def main(ctx):
         stats["max_depth_limits"].add(h["max"])
         if any(c[0] != "ok" for c in calls if c):
             ctx.nontriv(main_part)            # distinct = distinct (outcomes, traces, states) with >= 1 abrupt ending
+        if mouts is not None and mouts[i] != main_part and unwind_abort_in_recover(h, main_part, mouts[i]):
+            ctx.violation(KNOWN_UAR, "try frame / sp left at idle: iterator return() aborted while handleThrow (entered from a recover) was unwinding",
+                          replay_obj(h, run))
+            stats["known_defect_histories"] = stats.get("known_defect_histories", 0) + 1
+            continue
         if mouts is not None and mouts[i] != main_part:
             agree = False
             ndiff += 1
@@ -684,6 +730,11 @@ def main(ctx):
             wild_abrupt += 1
             ctx.nontriv("B" + strip_probe(line))
         bad = judge_impl(h, line)
+        if bad and unwind_abort_in_recover(h, strip_probe(line), None):
+            ctx.violation(KNOWN_UAR, "try frame / sp left at idle: iterator return() aborted while handleThrow (entered from a recover) was unwinding",
+                          replay_obj(h, run))
+            stats["known_defect_histories"] = stats.get("known_defect_histories", 0) + 1
+            continue
         if bad:
             viol.append((h, bad))
     stats["wild_histories"] = len(hsB)
